@@ -13,6 +13,13 @@ PROP = dict(
          "an own block confirmed, a send confirmed, the accelerator spork enforced in every third history) between the acknowledged momentum and the frontier; the valid direction is part of the history, the other direction (a signed block the producer refuses although its frontier ledger would take it) is a probe. "
          "Directed schedules: a long-running receiver fed one momentum per InsertChain call (InsertChain([m+1]) directly followed by InsertChain([m+2]) with the block acknowledging m), one fed in batches, one restarted right before such momentums / probes; "
          "all three must accept every momentum, refuse every probe, agree event by event and end with the producer's frontier hash and full store dump. "
+         "Some random schedules hand over the whole rest of the chain in one InsertChain call (more than two election ticks ahead of the receiver's frontier for most histories). "
+         "One LONG history per run (500+ momentums, 400+ of them empty, a little traffic of two accounts): user sends / receives that acknowledge an OLD momentum - distance frontier minus acknowledged momentum "
+         "at the moment the block is made and gossiped in {1, 5, 59, 60, 61, 299, 300, 301, 359, 360, 361, 400, the oldest momentum the account may still acknowledge, 3 random}, 3..5 accounts per distance - and then wait "
+         "0 / 1 / 2 / 5 momentums in the pools (the pillars of those slots produce without them) before a momentum confirms them; receivers: online (momentum by momentum, every such block by gossip when it is made: the twin), "
+         "restarted (same gossip, restarted right after it or right before the confirming momentum), late without gossip momentum by momentum, late with the WHOLE history in one InsertChain call, late in batches of 31..256, "
+         "late catching up from 1 / 2 / 3 / 10 election ticks behind in one call each (tick = NodeCount * BlockTime = 30 momentums; exactly k ticks, one momentum more, up to a tick more); "
+         "oracles producer-momentum-accepted, schedule-independent-acceptance (same InsertChain verdicts and same frontier as the twin for every schedule), frontier hash and full ledger dump equal to the producer's. "
          "patch: random Put/Delete sequences over 1..6 keys (empty key, prefixes, random bytes) on db.NewMemDB(), Changes() vs model and vs the same final content written once in random order.",
     explanation="Theorems: the change set is a function of the final overlay (sorted, last write per key); for every honest chain and any two schedules without variant gossip the receiving node's store equals the producer's state at that height "
                 "(so equal stores and equal answers), and the producer's next momentum is always accepted; with one gossiped variant of a user block both fail (F10, refuted by witness). "
